@@ -63,6 +63,7 @@ type Kind struct {
 	JFail  bool                         // json.Marshal fails on this type (func, chan)
 	Omit   string                       // "yes" (unnamed nilable / Option), "no", "ambig", "T" (type parameter: take the instantiation's)
 	JEmpty [2]bool                      // which of the two JSON values is "empty" in the omitempty sense
+	JLossy [2]bool                      // which of the two values does not survive its own JSON encoding (unexported content, a non-nil value of a non-empty interface type): no round trip is demanded of a struct value that holds it
 	JWrong string                       // a JSON value of the wrong type for this field
 }
 
@@ -108,7 +109,7 @@ var Kinds = []*Kind{
 	{ID: "any", Type: "any", Vals: simple("any(%[1]d)", "any(nil)"),
 		JVals: simple(`any("s%[1]d")`, "any(nil)"), Omit: "yes", JEmpty: [2]bool{false, true}},
 	{ID: "iface", Type: "interface{ M() }", Vals: simple("(interface{ M() })(implM(%[1]d))", "(interface{ M() })(nil)"),
-		JVals: simple("(interface{ M() })(nil)", "(interface{ M() })(nil)"), Omit: "yes", JEmpty: [2]bool{true, true}, JWrong: `5`},
+		JLossy: [2]bool{true, false}, Omit: "yes", JEmpty: [2]bool{false, true}, JWrong: `5`},
 	{ID: "anon-struct", Type: "struct{ Q int }", Vals: simple("struct{ Q int }{Q: %[1]d}", "struct{ Q int }{}"), Omit: "no", JWrong: `5`},
 	{ID: "opt-int", Type: "fp.Option[int]", Imports: []string{fpImp}, Vals: simple("option.Some(int(%[1]d))", "option.None[int]()"),
 		Opt: true, OptElem: func(Env) string { return "int" }, OptVals: simple("int(%[1]d)", "int(%[2]d)"), Omit: "yes", JWrong: `"zz"`},
@@ -142,17 +143,17 @@ var Kinds = []*Kind{
 // EmbKinds are the embedded-field forms.
 var EmbKinds = []*Kind{
 	{ID: "Pub", Type: "Pub", Emb: true, EmbName: "Pub", Vals: simple("Pub{X: %[1]d}", "Pub{}"), JWrong: `5`},
-	{ID: "inner", Type: "inner", Emb: true, EmbName: "inner", Vals: simple("inner{y: %[1]d}", "inner{}"), JVals: simple("inner{}", "inner{}"), JWrong: `5`},
+	{ID: "inner", Type: "inner", Emb: true, EmbName: "inner", Vals: simple("inner{y: %[1]d}", "inner{}"), JLossy: [2]bool{true, false}, JWrong: `5`},
 	{ID: "ptr-Pub", Type: "*Pub", Emb: true, EmbName: "Pub", Vals: simple("&Pub{X: %[1]d}", "(*Pub)(nil)"), JWrong: `5`},
-	{ID: "ptr-inner", Type: "*inner", Emb: true, EmbName: "inner", Vals: simple("&inner{y: %[1]d}", "(*inner)(nil)"), JVals: simple("(*inner)(nil)", "(*inner)(nil)"), JWrong: `5`},
+	{ID: "ptr-inner", Type: "*inner", Emb: true, EmbName: "inner", Vals: simple("&inner{y: %[1]d}", "(*inner)(nil)"), JLossy: [2]bool{true, false}, JWrong: `5`},
 	{ID: "time.Duration", Type: "time.Duration", Imports: []string{"time"}, Emb: true, EmbName: "Duration", Vals: simple("time.Duration(%[1]d)", "time.Duration(0)"), JWrong: `"zz"`},
 	{ID: "image.Point", Type: "image.Point", Imports: []string{"image"}, Emb: true, EmbName: "Point", Vals: simple("image.Point{X: %[1]d, Y: %[2]d}", "image.Point{}"), JWrong: `5`},
-	{ID: "fmt.Stringer", Type: "fmt.Stringer", Imports: []string{"fmt"}, Emb: true, EmbName: "Stringer", Vals: simple(`fmt.Stringer(strT("s%[1]d"))`, "fmt.Stringer(nil)"), JVals: simple("fmt.Stringer(nil)", "fmt.Stringer(nil)"), JWrong: `5`},
-	{ID: "Iface", Type: "Iface", Emb: true, EmbName: "Iface", Vals: simple("Iface(implM(%[1]d))", "Iface(nil)"), JVals: simple("Iface(nil)", "Iface(nil)"), JWrong: `5`},
-	{ID: "iface", Type: "iface", Emb: true, EmbName: "iface", Vals: simple("iface(implM(%[1]d))", "iface(nil)"), JVals: simple("iface(nil)", "iface(nil)"), JWrong: `5`},
+	{ID: "fmt.Stringer", Type: "fmt.Stringer", Imports: []string{"fmt"}, Emb: true, EmbName: "Stringer", Vals: simple(`fmt.Stringer(strT("s%[1]d"))`, "fmt.Stringer(nil)"), JLossy: [2]bool{true, false}, JWrong: `5`},
+	{ID: "Iface", Type: "Iface", Emb: true, EmbName: "Iface", Vals: simple("Iface(implM(%[1]d))", "Iface(nil)"), JLossy: [2]bool{true, false}, JWrong: `5`},
+	{ID: "iface", Type: "iface", Emb: true, EmbName: "iface", Vals: simple("iface(implM(%[1]d))", "iface(nil)"), JLossy: [2]bool{true, false}, JWrong: `5`},
 	{ID: "Empty", Type: "Empty", Emb: true, EmbName: "Empty", NoApply: true, Vals: simple("Empty{}", "Empty{}"), JWrong: `5`},
-	{ID: "myint", Type: "myint", Emb: true, EmbName: "myint", Vals: simple("myint(%[1]d)", "myint(%[2]d)"), JVals: simple("myint(0)", "myint(0)"), JWrong: `"zz"`},
-	{ID: "ptr-myint", Type: "*myint", Emb: true, EmbName: "myint", Vals: simple("pmyint(%[1]d)", "(*myint)(nil)"), JVals: simple("(*myint)(nil)", "(*myint)(nil)"), JWrong: `"zz"`},
+	{ID: "myint", Type: "myint", Emb: true, EmbName: "myint", Vals: simple("myint(%[1]d)", "myint(0)"), JLossy: [2]bool{true, false}, JWrong: `"zz"`},
+	{ID: "ptr-myint", Type: "*myint", Emb: true, EmbName: "myint", Vals: simple("pmyint(%[1]d)", "(*myint)(nil)"), JLossy: [2]bool{true, false}, JWrong: `"zz"`},
 	{ID: "Box-int", Type: "Box[int]", Emb: true, EmbName: "Box", Vals: simple("Box[int]{V: %[1]d}", "Box[int]{}"), JWrong: `5`},
 	{ID: "Box-T", Type: "Box[T]", TP: []string{"T"}, Emb: true, EmbName: "Box", Vals: func(i int, e Env) [2]string {
 		return [2]string{fmt.Sprintf("Box[%s]{V: %s}", e.t("T").Type, e.t("T").Val(n1(i))), fmt.Sprintf("Box[%s]{}", e.t("T").Type)}
@@ -225,6 +226,47 @@ var (
 )
 
 var AllAnnots = []Annot{AnnV, AnnVJ, AnnVL, AnnVJL, AnnGW, AnnB, AnnAAC}
+
+// ComboAnnots are combinations of annotations on one struct: several of them make gombok run the
+// same generator function twice for the struct (processValue and processWith both call
+// genPrivateWiths, ...), which must not emit a member twice.
+var ComboAnnots = []Annot{
+	{"v+w", []string{"@fp.Value", "@fp.With"}},
+	{"v+g", []string{"@fp.Value", "@fp.Getter"}},
+	{"v+b", []string{"@fp.Value", "@fp.Builder"}},
+	{"v+g+w", []string{"@fp.Value", "@fp.Getter", "@fp.With"}},
+	{"v+w+j", []string{"@fp.Value", "@fp.With", "@fp.Json"}},
+	{"v+aac", []string{"@fp.Value", "@fp.AllArgsConstructor"}},
+	{"g+w+b", []string{"@fp.Getter", "@fp.With", "@fp.Builder"}},
+	{"v+s", []string{"@fp.Value", "@fp.String"}},
+	{"v+w+l", []string{"@fp.Value", "@fp.With", "@fp.GenLabelled"}},
+	{"v+g+w+j+l", []string{"@fp.Value", "@fp.Getter", "@fp.With", "@fp.Json", "@fp.GenLabelled"}},
+	{"w+v", []string{"@fp.With", "@fp.Value"}},
+}
+
+// ComboForms are the one-field forms crossed with the annotation combinations.
+func ComboForms() []Form {
+	k := kindByID
+	return []Form{
+		{"priv", k("int")}, {"pub", k("int")}, {"priv", k("opt-int")}, {"pub", k("opt-int")}, {"priv", k("opt-slice")},
+		{"priv", k("ptr-int")}, {"priv", k("slice-string")}, {"priv", k("T")}, {"priv", k("opt-T")}, {"emb", k("emb.Pub")},
+	}
+}
+
+// Combos: the one-field forms above and the three-field mixed family under every combination.
+func Combos() []*Shape {
+	var out []*Shape
+	for _, a := range ComboAnnots {
+		for _, fm := range ComboForms() {
+			out = append(out, mkShape("combo", a, []Form{fm}, nil))
+		}
+		for _, s := range Mixed(a) {
+			s.Family = "combo"
+			out = append(out, s)
+		}
+	}
+	return out
+}
 
 func (a Annot) has(s string) bool {
 	for _, l := range a.Lines {
@@ -453,11 +495,25 @@ func Mixed(a Annot) []*Shape {
 		{{"priv", k("T")}, {"und", k("T")}, {"pub", k("slice-T")}},
 		{{"pub", k("int")}, {"priv", k("int")}, {"und", k("opt-int")}},
 		{{"priv", k("int")}, {"emb", k("emb.Empty")}, {"priv", k("int")}},
+		{{"priv", k("int")}, {"emb", k("emb.time.Duration")}, {"pub", k("string")}},
+		{{"emb", k("emb.ptr-Pub")}, {"priv", k("int")}, {"und", k("int")}},
+		{{"priv", k("string")}, {"pub", k("int")}, {"emb", k("emb.Iface")}},
 	}
 	var out []*Shape
 	for _, r := range rows {
 		s := mkShape("mixed", a, r, nil)
 		out = append(out, s)
+	}
+	return out
+}
+
+// EmbeddedPairs: every embedded form next to an ordinary field, in both positions.
+func EmbeddedPairs(a Annot) []*Shape {
+	var out []*Shape
+	for _, k := range EmbKinds {
+		s1 := mkShape("embedded-pair", a, []Form{{"priv", kindByID("int")}, {"emb", k}}, nil)
+		s2 := mkShape("embedded-pair", a, []Form{{"emb", k}, {"pub", kindByID("string")}}, nil)
+		out = append(out, s1, s2)
 	}
 	return out
 }
